@@ -8,6 +8,7 @@ import (
 	"errors"
 	"fmt"
 	"image"
+	"math"
 	"net"
 	"reflect"
 	"sort"
@@ -149,6 +150,15 @@ func (b *botSim) bundleDispatched(bundle int) int {
 
 var s2cIDs = []int32{1, 2, 3, 7, 40, int32(packetid.ClientboundPacketIDGuard) - 1}
 
+// prio draws a handler priority: mostly a small range (ties are common),
+// occasionally values far apart.
+func prio(tp *tape.Tape) int {
+	if tp.Bool(1, 12) {
+		return []int{math.MinInt, math.MinInt + 1, -1 << 40, -10, math.MaxInt - 1, math.MaxInt, 1 << 40}[tp.Choose(7)]
+	}
+	return tp.Choose(3)
+}
+
 func drawBot(tp *tape.Tape, idx int, threshold int, names map[string]bool) *botSim {
 	b := &botSim{idx: idx, failAt: -1, quiesce: map[int]bool{}}
 	for attempt := 0; ; attempt++ {
@@ -241,17 +251,17 @@ func drawBot(tp *tape.Tape, idx int, threshold int, names map[string]bool) *botS
 		b.c2s = append(b.c2s, spkt{id, gen.Fill(tp, gen.PayloadLen(tp, threshold, id, 2000), 20+idx, i), -1})
 	}
 	// handlers: one generic observer always; 0..6 more generic, 0..6 per id
-	b.handlers = append(b.handlers, handlerCfg{generic: true, priority: tp.Choose(3), park: true})
+	b.handlers = append(b.handlers, handlerCfg{generic: true, priority: prio(tp), park: true})
 	nGen := tp.Choose(7)
 	if tp.Bool(1, 8) {
 		// large tables: sorting algorithms switch strategy above a dozen elements
 		nGen = 12 + tp.Choose(14)
 	}
 	for i := nGen; i > 0; i-- {
-		b.handlers = append(b.handlers, handlerCfg{generic: true, priority: tp.Choose(3), park: tp.Bool(1, 3)})
+		b.handlers = append(b.handlers, handlerCfg{generic: true, priority: prio(tp), park: tp.Bool(1, 3)})
 	}
 	for i := tp.Choose(7); i > 0; i-- {
-		b.handlers = append(b.handlers, handlerCfg{id: s2cIDs[tp.Choose(len(s2cIDs))], priority: tp.Choose(3), park: tp.Bool(1, 3), reply: tp.Bool(1, 4)})
+		b.handlers = append(b.handlers, handlerCfg{id: s2cIDs[tp.Choose(len(s2cIDs))], priority: prio(tp), park: tp.Bool(1, 3), reply: tp.Bool(1, 4)})
 	}
 	for i := range b.handlers {
 		for j := 0; j < i; j++ {
@@ -628,7 +638,7 @@ func scenarioWorld(c *harness.Ctx) {
 	if nBots >= 2 && tp.Bool(1, 2) {
 		pSharedHandlers.Hit()
 		for i := 1 + tp.Choose(3); i > 0; i-- {
-			common = append(common, handlerCfg{generic: true, priority: tp.Choose(3)})
+			common = append(common, handlerCfg{generic: true, priority: prio(tp)})
 		}
 		for _, b := range bots {
 			b.handlers = append(append([]handlerCfg(nil), common...), b.handlers...)
